@@ -138,3 +138,54 @@ Proof.
   split; [exact chain_all_matched|]. split; [exact chain_not_all_matched | exact chain_link_actions_inert].
 Qed.
 Print Assumptions C08_chain_starter_actions_once.
+
+(* ---- removals and inherited actions (configure time and run time) ---- *)
+
+(* ctl:ruleRemoveById=lo-hi is carried in the model as the ids lo..hi: exactly the loop's test
+   rng[0] <= ID_ <= rng[1] *)
+Theorem C08_range_membership : forall id lo hi,
+  existsb (Nat.eqb id) (fl_range lo hi) = (lo <=? id) && (id <=? hi).
+Proof. exact range_membership. Qed.
+Print Assumptions C08_range_membership.
+
+(* a removed rule is as good as absent: the rule set from which the rules hit by `extra` were deleted
+   (SecRuleRemoveById) shows the same evaluations / matches / interruptions as the full rule set in a
+   transaction that starts with `extra` removed (ctl:ruleRemoveById) - from any state, so removed rules
+   are not evaluated, not counted by skip:N and not found by skipAfter *)
+Theorem C08_removed_as_absent : forall extra req p rs s,
+  fl_obs (fl_eval_phase req p (filter (fl_live extra) rs) s) = fl_obs (fl_eval_phase req p rs (add_rm extra s)).
+Proof. exact removed_as_absent. Qed.
+Print Assumptions C08_removed_as_absent.
+
+(* SecRuleRemoveById: a range deletes exactly the rules whose id lies in it; a single id deletes, under
+   unique ids, exactly the rules carrying it (order kept) - without the guard only the first one
+   (FlowProofs.delete_first_only_first: SecRuleRemoveById 0 removes the first SecMarker only); a directive
+   at the end of the file acts on everything configured before it *)
+Theorem C08_secruleremovebyid :
+  (forall rs lo hi r, In r (fl_delete rs (RmRange lo hi)) <-> In r rs /\ ~ (lo <= r_id r <= hi))
+  /\ (forall id rs, NoDup (map r_id rs) ->
+      fl_delete_first id rs = filter (fun r => negb (r_id r =? id)) rs)
+  /\ (forall ds l, fl_configure (ds ++ [DRemove l]) = fold_left fl_delete l (fl_configure ds)).
+Proof. split; [exact delete_range_spec|]. split; [exact delete_first_unique | exact configure_remove_last]. Qed.
+Print Assumptions C08_secruleremovebyid.
+
+(* SecDefaultAction / block: a rule with no disruptive action of its own (none written, or block) gets
+   the default disruptive action of its phase appended behind its own actions; a rule with its own
+   disruptive action keeps exactly its own actions; without a SecDefaultAction for the phase block is a
+   no-op; `block,skip..` under a default deny/allow is `skip..,deny/allow`; and the configured rule list
+   (whatever directives produced it) obeys the documented flow semantics *)
+Theorem C08_inherited_actions :
+  (forall da src, existsb fl_sact_is_da src = false ->
+     fl_resolve_acts (Some da) src = flat_map fl_sact_keep src ++ match da with Some a => [a] | None => [] end)
+  /\ (forall dflt src, existsb fl_sact_is_da src = true -> fl_resolve_acts dflt src = flat_map fl_sact_keep src)
+  /\ (forall src, fl_resolve_acts None src = flat_map fl_sact_keep src)
+  /\ (forall a flow,
+      forallb (fun x => match x with SA (ASkip _) | SA (ASkipAfter _) => true | _ => false end) flow = true ->
+      fl_resolve_acts (Some (Some a)) (SBlock :: flow) = flat_map fl_sact_keep flow ++ [a])
+  /\ (forall eng req ds,
+      fl_obs (fl_run eng req (fl_configure ds)) = fl_gobs (fl_spec_run eng req (fl_configure ds))).
+Proof.
+  split; [exact resolve_inherits|]. split; [exact resolve_own_da|]. split; [exact resolve_no_default|].
+  split; [exact resolve_block | intros; apply refines_spec].
+Qed.
+Print Assumptions C08_inherited_actions.
